@@ -114,7 +114,8 @@ def _ins_prog(p):
 
 def lean_request(p):
     # the Lean model runs the history with ONE extra read statement inserted; its observation is dropped afterwards
-    return {"op": "Heap.run", "prog": _ins_prog(p)}
+    from props import c06
+    return {"op": "Heap.run", "prog": c06.lean_prog(_ins_prog(p))}
 
 
 def decode_lean(p, resp):
